@@ -43,7 +43,7 @@ func c05Stress(ctx *Ctx) {
 		ctx.Inconclusive("race build unavailable: stress ran without the race detector")
 	}
 	rounds := ctx.N(3, 10)
-	modes := []string{"mixed", "aof-order", "snapshot-cut", "conn-admin", "expiry-resurrect"}
+	modes := []string{"mixed", "aof-order", "snapshot-cut", "conn-admin", "expiry-resurrect", "first-select", "object-touch"}
 	var wg sync.WaitGroup
 	sem := make(chan struct{}, 3)
 	for rd := 0; rd < rounds; rd++ {
@@ -207,6 +207,11 @@ func stressMain(args []string) int {
 		opts.EvictionInterval = time.Millisecond
 		opts.EvictionSample = 20
 	}
+	if mode == "object-touch" {
+		// eviction bookkeeping is only kept with a memory limit: one that is never reached
+		opts.MaxMemory = 1 << 40
+		opts.Policy = []string{"allkeys-lfu", "allkeys-lru"}[seed%2]
+	}
 	in, err := NewInst(opts)
 	if err != nil {
 		fmt.Fprintln(os.Stderr, err)
@@ -221,7 +226,7 @@ func stressMain(args []string) int {
 	if tier == "thorough" {
 		nClients, nOps = 12, 600
 	}
-	if mode == "conn-admin" || mode == "expiry-resurrect" {
+	if mode == "conn-admin" || mode == "expiry-resurrect" || mode == "first-select" || mode == "object-touch" {
 		finish := func() int {
 			for c := range classes {
 				res.Classes = append(res.Classes, c)
@@ -231,6 +236,10 @@ func stressMain(args []string) int {
 		}
 		if mode == "conn-admin" {
 			stressConnAdmin(in, port, nOps*2, seed, res, violate, class)
+		} else if mode == "first-select" {
+			stressFirstSelect(in, port, nClients, seed, res, violate, class)
+		} else if mode == "object-touch" {
+			stressObjectTouch(in, port, nOps*4, seed, res, violate, class, opts.Policy)
 		} else {
 			stressExpiryResurrect(in, port, nClients, nOps*2, seed, res, violate, class)
 		}
@@ -834,4 +843,184 @@ func stressExpiryResurrect(in *Inst, port int, nClients, nOps int, seed int64, r
 			What: fmt.Sprintf("%d of %d keys lost their last acknowledged write: a value written over an expired-but-still-stored entry was removed afterwards (no sequential order of the write and a sampler pass removes it): %s", lost, len(finals), example),
 			Case: map[string]interface{}{"seed": seed}, Key: "c05|expiry-resurrect|lost"})
 	}
+}
+
+
+// stressFirstSelect: several connections walk through the same never-used database indices at the same time,
+// each selecting the database and writing its own key there. Every acknowledged SET must still be there at
+// the end: the first use of a database by one client must not undo what another client has already written
+// to it.
+func stressFirstSelect(in *Inst, port int, nClients int, seed int64, res *stressResult, violate func(Violation), class func(string)) {
+	const first, count = 100, 120
+	var wg sync.WaitGroup
+	var ops atomic.Int64
+	acked := make([][]bool, nClients)
+	start := make(chan struct{})
+	for id := 0; id < nClients; id++ {
+		acked[id] = make([]bool, count)
+		wg.Add(1)
+		go func(id int) {
+			defer wg.Done()
+			c, err := Dial(port)
+			if err != nil {
+				return
+			}
+			defer c.Close()
+			<-start
+			for n := 0; n < count; n++ {
+				db := strconv.Itoa(first + n)
+				if id%2 == 1 {
+					// pipelined: SELECT and SET in one write
+					if err := c.Send(append(resp.Encode("SELECT", db), resp.Encode("SET", fmt.Sprintf("fs:%d", id), "v"+db)...)); err != nil {
+						return
+					}
+					v1, _, e1 := c.Read(80 * time.Second)
+					v2, _, e2 := c.Read(80 * time.Second)
+					ops.Add(2)
+					if e1 != nil || e2 != nil || v1.IsError() || v2.IsError() {
+						violate(Violation{Kind: "reply", Lane: "stress-first-select", What: fmt.Sprintf("SELECT %s; SET -> %s %v / %s %v", db, v1.String(), e1, v2.String(), e2), Key: "c05|first-select|reply"})
+						return
+					}
+				} else {
+					v1, _, e1 := c.Do("SELECT", db)
+					v2, _, e2 := c.Do("SET", fmt.Sprintf("fs:%d", id), "v"+db)
+					ops.Add(2)
+					if e1 != nil || e2 != nil || v1.IsError() || v2.IsError() {
+						violate(Violation{Kind: "reply", Lane: "stress-first-select", What: fmt.Sprintf("SELECT %s; SET -> %s %v / %s %v", db, v1.String(), e1, v2.String(), e2), Key: "c05|first-select|reply"})
+						return
+					}
+				}
+				acked[id][n] = true
+			}
+		}(id)
+	}
+	close(start)
+	wg.Wait()
+	res.Ops = ops.Load()
+	d := in.S.VerifDump()
+	lost, example := 0, ""
+	for id := range acked {
+		for n, ok := range acked[id] {
+			if !ok {
+				continue
+			}
+			key := fmt.Sprintf("fs:%d", id)
+			v, present := d.DBs[first+n][key]
+			if !present || v.Str != "v"+strconv.Itoa(first+n) {
+				lost++
+				if example == "" {
+					example = fmt.Sprintf("database %d lacks %s (acknowledged SET by connection %d right after its SELECT %d)", first+n, key, id, first+n)
+				}
+			}
+		}
+	}
+	class(fmt.Sprintf("first-select|clients=%d|databases=%d|lost=%v", nClients, count, lost > 0))
+	res.Counters["first_select_acknowledged_writes"] = ops.Load() / 2
+	if lost > 0 {
+		violate(Violation{Kind: "lost_write", Lane: "stress-first-select",
+			What: fmt.Sprintf("%d acknowledged writes are gone after %d connections selected and wrote to the same %d never-used databases at the same time: %s", lost, nClients, count, example),
+			Case: map[string]interface{}{"seed": seed}, Key: "c05|first-select|lost"})
+	}
+}
+
+
+// stressObjectTouch: readers of the eviction bookkeeping (OBJECTFREQ / OBJECTIDLETIME), TOUCH and ordinary
+// reads and writes (whose asynchronous cache updates touch the same bookkeeping) from several connections
+// under an LFU / LRU policy. All of these are read commands or background work, so only the bookkeeping's own
+// locks order them; every command must be answered.
+func stressObjectTouch(in *Inst, port int, nOps int, seed int64, res *stressResult, violate func(Violation), class func(string), policy string) {
+	for k := 0; k < 64; k++ {
+		in.Do("SET", fmt.Sprintf("ot%d", k), "v")
+	}
+	var allKeys []string
+	for k := 0; k < 64; k++ {
+		allKeys = append(allKeys, fmt.Sprintf("ot%d", k))
+	}
+	obj := "OBJECTFREQ"
+	if strings.HasSuffix(policy, "lru") {
+		obj = "OBJECTIDLETIME"
+	}
+	// embedded callers (no network between two calls) and TCP connections; no write command in the mix, so
+	// that nothing holds the command lock exclusively and the loops really overlap
+	in.Do(append([]string{"TOUCH"}, allKeys...)...)
+	if v, _, _ := in.Do(obj, "ot1"); v.IsError() {
+		res.Inconcl = append(res.Inconcl, "object-touch: "+obj+" is not available: "+v.String())
+		return
+	}
+	roles := []string{"object", "object", "object-tcp", "touch", "touch", "touch-tcp", "get", "get"}
+	var wg sync.WaitGroup
+	var ops atomic.Int64
+	var finished atomic.Int64
+	current := make([]atomic.Value, len(roles))
+	for id, role := range roles {
+		wg.Add(1)
+		go func(id int, role string) {
+			defer wg.Done()
+			defer finished.Add(1)
+			var c *Client
+			if strings.HasSuffix(role, "-tcp") {
+				var err error
+				if c, err = Dial(port); err != nil {
+					return
+				}
+				defer c.Close()
+			}
+			r := rand.New(rand.NewSource(seed*131 + int64(id)))
+			n := nOps * 3
+			if c != nil {
+				n = nOps
+			}
+			for i := 0; i < n; i++ {
+				k := fmt.Sprintf("ot%d", r.Intn(64))
+				var argv []string
+				switch {
+				case strings.HasPrefix(role, "object"):
+					argv = []string{obj, k}
+				case strings.HasPrefix(role, "touch"):
+					// all the keys in one TOUCH: the bookkeeping of every key is updated under one hold of the store lock
+					argv = append([]string{"TOUCH"}, allKeys...)
+				default:
+					argv = []string{"GET", k}
+				}
+				current[id].Store(Step{Argv: argv}.String())
+				if c != nil {
+					if _, _, err := c.Do(argv...); err != nil {
+						return // reported by the progress monitor below
+					}
+				} else {
+					in.Do(argv...)
+				}
+				ops.Add(1)
+			}
+		}(id, role)
+	}
+	// progress monitor: the loops finish in seconds; no completed command at all for two minutes, with
+	// loops still open, means that every one of them is waiting for something that never comes
+	stuck := false
+	last, lastChange := int64(-1), time.Now()
+	for finished.Load() < int64(len(roles)) {
+		time.Sleep(50 * time.Millisecond)
+		if n := ops.Load(); n != last {
+			last, lastChange = n, time.Now()
+		} else if time.Since(lastChange) > 2*time.Minute {
+			stuck = true
+			break
+		}
+	}
+	if stuck {
+		var open []string
+		for id := range roles {
+			if v, _ := current[id].Load().(string); v != "" {
+				open = append(open, fmt.Sprintf("%s: %s", roles[id], v))
+			}
+		}
+		violate(Violation{Kind: "deadlock", Lane: "stress-object-touch",
+			What: fmt.Sprintf("after %d commands no command completed for two minutes while %d loops of %s / TOUCH / GET (embedded callers and TCP connections, policy %s) were still running; commands in flight: %v", ops.Load(), int64(len(roles))-finished.Load(), obj, policy, open),
+			Case: map[string]interface{}{"policy": policy, "in_flight": open}, Key: "c05|object-touch|stuck"})
+	} else {
+		wg.Wait()
+	}
+	res.Ops = ops.Load()
+	class(fmt.Sprintf("object-touch|%s|completed=%v", policy, !stuck))
+	res.Counters["object_touch_ops"] = ops.Load()
 }
